@@ -675,25 +675,30 @@ def _pool():
     sy = gtirb.Symbol("y", uuid=UUID(int=16), module=m)
     mb = gtirb.Module(name="mb", uuid=UUID(int=20), ir=irb)
     det = gtirb.DataBlock(size=1, uuid=UUID(int=30))
-    attached = [ira, m, s, bi, cb, db, px, sy]
+    # nodes that are "empty" in some sense must resolve like any other: empty section, zero-sized interval and block, module without children
+    es = gtirb.Section(name="", uuid=UUID(int=17), module=m)
+    zi = gtirb.ByteInterval(size=0, uuid=UUID(int=18), section=s)
+    zb = gtirb.DataBlock(size=0, uuid=UUID(int=19), byte_interval=bi)
+    attached = [ira, m, s, bi, cb, db, px, sy, es, zi, zb]
     return ira, irb, attached, [mb, irb], det
 
 
 def node_resolution(which: int, kind: int, disp: int) -> bool:
     """
-    pre: 0 <= which < 12
+    pre: 0 <= which < 15
     pre: 0 <= kind < 4
     pre: 0 <= disp < 2**64
     post: __return__
     """
-    w = pick(which, 12)
+    w = pick(which, 15)
     k = pick(kind, 4)
+    NA = 11
     with untraced():
         ira, irb, attached, other, det = _pool()
-        cands = attached + other + [det, None]     # 8 attached, 2 of the other IR, detached, unknown
+        cands = attached + other + [det, None]     # 11 attached, 2 of the other IR, detached, unknown
         target = cands[w]
         u = target.uuid if target is not None else UUID(int=99)
-        want = target if w < 8 else u              # object itself iff attached to IR A
+        want = target if w < NA else u             # object itself iff attached to IR A
     if k == 0:
         tn, val = "UUID", (target if target is not None else u)
     elif k == 1:
@@ -722,7 +727,7 @@ def node_resolution(which: int, kind: int, disp: int) -> bool:
             return fail("displacement")
         got = [key, back[key].element_id]
     for g in got:
-        if w < 8:
+        if w < NA:
             if g is not want:
                 return fail("attached node did not come back as the object itself")
         else:
@@ -823,16 +828,21 @@ def spot_seq_variant(idx: int, v: int, s: str, tail: bytes) -> bool:
     post: __return__
     """
     # variants with alternatives of different sizes inside containers, short trailing data
-    tn = "sequence<variant<uint8_t,string,Offset>>"
+    tn = "sequence<variant<uint8_t,string,Offset,uint8_t>>"
     i = pick(idx, 4)
-    vals = [[], [Variant(0, v)], [Variant(0, v), Variant(1, s)], [Variant(0, v), Variant(0, 7), Variant(0, 9)]][i]
+    vals = [[], [Variant(3, v)], [Variant(0, v), Variant(1, s)], [Variant(0, v), Variant(3, 7), Variant(0, 9)]][i]
     raw = _encode(vals, tn)
     if FMT():
         if not _u64_is(raw, 0, len(vals)):
             return fail("count")
-        want = 8 + sum(8 + (1 if x.index == 0 else 8 + len(R.utf8(x.val))) for x in vals)
+        want = 8 + sum(8 + (1 if x.index in (0, 3) else 8 + len(R.utf8(x.val))) for x in vals)
         if len(raw) != want:
             return fail("length")
+        pos = 8
+        for x in vals:
+            if not _u64_is(raw, pos, x.index):
+                return fail("alternative index written is not the value's index")
+            pos += 8 + (1 if x.index in (0, 3) else 8 + len(R.utf8(x.val)))
     if RT():
         back, pos = _decode_at(raw + tail, tn)
         if not (len(back) == len(vals) and all(back[k].index == vals[k].index and back[k].val == vals[k].val for k in range(len(vals)))):
@@ -853,7 +863,7 @@ def node_resolution_hist(which: int, edit: int) -> bool:
     e = pick(edit, 4)
     with untraced():
         ira, irb, attached, other, det = _pool()
-        ir, m, s, bi, cb, db, px, sy = attached
+        ir, m, s, bi, cb, db, px, sy = attached[:8]
         node = [cb, sy, px, det][w]
         tn = ("UUID", "Offset", "sequence<UUID>", "mapping<UUID,Offset>")[(w + e) % 4]
         u = node.uuid
